@@ -5,5 +5,5 @@
 tier="${1:-quick}"; shift || true
 ids=("$@"); [ ${#ids[@]} -gt 0 ] || ids=($(ls /verif/benign))
 cd "$(dirname "$0")/.."
-printf '%s\n' "${ids[@]}" | xargs -P 2 -I{} bash -c "SKIPSUITE=1 tools/benign.sh {} $tier 2>&1 | grep -E '^(benign|ALARM|.*PATCH-DOES-NOT-APPLY|.*DOES-NOT-BUILD)'"
+printf '%s\n' "${ids[@]}" | xargs -P 3 -I{} bash -c "SKIPSUITE=1 tools/benign.sh {} $tier 2>&1 | grep -E '^(benign|ALARM|.*PATCH-DOES-NOT-APPLY|.*DOES-NOT-BUILD)'"
 git -C /repo worktree prune
